@@ -130,6 +130,20 @@ structure SlotShape where
   inLoop : Bool
 deriving Repr
 
+/-- a map insertion `G[k] = v` (lost-insert rule).  `guards`: the mutexes held in write mode at the insert whose critical
+    section either spans the whole function (held on entry) or contains, on every path, a lookup of the same element
+    `G[k]` — the re-check under the lock.  `rechecked` = `guards ≠ []` (for reports). -/
+structure Insert where
+  id : Nat
+  cls : Cls
+  guards : List Lock
+  rechecked : Bool
+  phase : Phase
+  fn : String
+  pos : String
+  key : String
+deriving Repr
+
 /-- something the extractor refused to interpret -/
 structure Unknown where
   id : Nat
@@ -185,6 +199,12 @@ def idsOf (names : List (Nat × String)) (ks : List String) : List Nat :=
 def resolve (names : List (Nat × String)) (ks : List (String × String)) : List (Nat × String) :=
   ks.foldr (fun k acc => ((names.filter fun p => p.2 == k.1).map fun p => (p.1, k.2)) ++ acc) []
 
+/-- the insert is not a lost-insert hazard: one of its guards is held in write mode by *every* live writer of the class,
+    so between the (re-)check and the insert no other writer can run; or it is not live code, or a listed known site -/
+def insertOkB (t : List Access) (ex : List (Cls × String)) (r : Insert) : Bool :=
+  r.phase != .live || (ex.any fun e => e.1 == r.cls && e.2 == r.fn) ||
+    r.guards.any fun m => t.all fun b => b.cls != r.cls || !(b.write && b.live) || heldIn b m true
+
 def rankOf (ranks : List (Lock × Nat)) (m : Lock) : Nat :=
   match ranks.find? (fun p => p.1 == m) with
   | some p => p.2
@@ -223,6 +243,20 @@ def applyAll {ρ} (s : Res → List ρ) : List (Upd ρ) → (Res → List ρ)
 def history {ρ} (s : Res → List ρ) : List (Upd ρ) → List (Res → List ρ)
   | [] => [s]
   | u :: us => s :: history (applyUpd s u) us
+
+/-! ### get-or-create: check and insert in one atomic step vs. in two -/
+
+/-- the atomic get-or-create step (look up and insert inside one write section) -/
+def getOrCreate {ν} (m : Res → Option ν) (k : Res) (fresh : ν) : (Res → Option ν) × ν :=
+  match m k with
+  | some x => (m, x)
+  | none => (fun k' => if k' = k then some fresh else m k', fresh)
+
+/-- the split version: the caller looked up earlier (`seen`), and inserts blindly if it saw nothing -/
+def blindCreate {ν} (m : Res → Option ν) (k : Res) (seen : Option ν) (fresh : ν) : (Res → Option ν) × ν :=
+  match seen with
+  | some x => (m, x)
+  | none => (fun k' => if k' = k then some fresh else m k', fresh)
 
 /-- a request on `r` that takes its single snapshot after `k` of the concurrent updates -/
 def oneSnapshot {ρ} (s : Res → List ρ) (us : List (Upd ρ)) (k : Nat) (r : Res) : List ρ :=
